@@ -580,6 +580,34 @@ extend("C09",
        "level and by the oracle, not proved; NotImplementedError branches and the broken COMPXS record variants (findings) are outside "
        "the schemas.")
 
+# round 2 of the continuation
+extend("C20", "", "Source tie for both label functions on the admissible labels (finite domain, kernel-evaluated; bijection corollary over the "
+       "translated definitions); numbers >= 1300 that are not label images: correspondence only.", SRC_TECH)
+extend("C09", "", "Source tie for getBlockBandwidth only (all integers; the blocks tile the columns; the schemas' block-width expression is "
+       "the code's jU - jL + 1); record readers/writers remain correspondence.", SRC_TECH)
+extend("C04", "", "Source tie for getH5GroupName, cycle and node < 100 (injective, parsed back by the cXXnYY pattern).", SRC_TECH)
+extend("C06", "", "Source tie for getH5GroupName, cycle and node < 100.", SRC_TECH)
+extend("C08", "", "HexGrid.rotateIndex is now source-tied as well (all integers; additive, identity at 6, ring-preserving, k*60 degrees; "
+       "consistency of the locator's grid enters as a boolean).")
+extend("C07", "", "CartesianGrid.getRingPos is now source-tied as well (0.5 offsets carried as doubled integers; inputs < 2^45).")
+extend("C14", "", "No source tie: SpentFuelPool._getNextLocation is object code outside the translatable subset.")
+extend("C13",
+       "Copies of sources that were rotated before the conversion: orientation = source + turn and every per-corner / per-edge vector "
+       "pivoted by the copy's own turn alone (copyBlock_boundary, convert_copies_boundary), compared per block with the real core after "
+       "every operation over all nine CORNERS/EDGES parameters; redundant calls on the same changers are no-ops on state and bookkeeping "
+       "(redundant_call_noop, restore_convert_convert, restore_restore), tied by phrase-generated sequences with the changer bookkeeping "
+       "in the compared state.",
+       "zone membership of copies and zone restoration are checked on the real core only; all blocks of a generated assembly share one "
+       "orientation.")
+extend("C12",
+       "Shared composition objects are modelled (changeAll_spec: one scaling per component for any sharing pattern) and tied; target "
+       "designation is modelled as a function of the current blocks (isTarget_after_redesignation) and tied on re-designated blocks with "
+       "fresh ExpansionData instances.", "")
+extend("C11",
+       "The mass-conserving height change is modelled component by component with volume caches (setHeightOne_cache_independent, "
+       "setHeightOne_atoms) and tied from arbitrary cache states.",
+       "cache invalidation by temperature or dimension changes is oracle-only.")
+
 NOT_YET = {}
 
 ALL = [f"C{n:02d}" for n in range(1, 21)]
